@@ -1100,6 +1100,17 @@ STMT_OWNERS = ('IfStmt', 'WhileStmt', 'DoWhileStmt', 'ForStmt', 'ForInStmt', 'Fo
 LITERAL_CALLERS = ('concat', 'replace', 'replaceAll', 'padEnd', 'padStart', 'repeat')
 
 
+def proto_args_shape(args, name):
+    if len(args) < 2:
+        return 'this-only'
+    a1 = args[1]
+    if a1['spread'] is not None:
+        return 'spread-argument'
+    if is_lazy(a1['expr']):
+        return 'opaque-argument'
+    return '%s-argument' % kind(a1['expr'])
+
+
 def check_C04(in_view, out_view, er, erased, cfg_terms):
     """every enabled operation in an instrumentable position of the input has its hook in the output"""
     out = []
@@ -1169,6 +1180,27 @@ def check_C04(in_view, out_view, er, erased, cfg_terms):
                                     isproto = leaf_eq(op_['_0']['sym'], 'prototype')
                                     ok_recv = neg(isproto)
                             notcallapply = conj([neg(leaf_eq(name, 'call')), neg(leaf_eq(name, 'apply'))]) if kind(obj) == 'Member' else True
+                            if kind(obj) == 'Lit':
+                                # string-literal receivers are covered only for the whitelisted methods
+                                lp = payload(obj)
+                                if not is_lazy(lp) and lp.get('_v') == 'Str':
+                                    ok_recv = z_or([leaf_eq(name, w) for w in LITERAL_CALLERS])
+                                else:
+                                    ok_recv = False
+                            # X.prototype.m.call|apply(thisArg, ..)
+                            if kind(obj) == 'Member' and not is_lazy(p['args']) and p['args']:
+                                mo = payload(obj)
+                                m_prop, m_obj = mo['prop'], mo['obj']
+                                if not is_lazy(m_prop) and m_prop.get('_v') == 'Ident' and not is_lazy(m_obj) and kind(m_obj) == 'Member':
+                                    pp = payload(m_obj)['prop']
+                                    if not is_lazy(pp) and pp.get('_v') == 'Ident':
+                                        is_refl = z_or([leaf_eq(name, 'call'), leaf_eq(name, 'apply')])
+                                        is_proto = leaf_eq(pp['_0']['sym'], 'prototype')
+                                        this_arg = p['args'][0]
+                                        this_ok = this_arg['spread'] is None and (not is_lazy(this_arg['expr'])) and kind(this_arg['expr']) in RECEIVER_KINDS
+                                        if this_ok:
+                                            for which in ('call', 'apply'):
+                                                need(conj([leaf_eq(name, which), is_proto, method_configured(cfg_terms, m_prop['_0']['sym'])]), 'uninstrumented:prototype-%s:%s' % (which, proto_args_shape(p['args'], name)), p['span'], 'X.prototype.m.%s(thisArg, ..) of a configured method at %s is not wrapped by its hook' % (which, where))
                             if ok_recv is not False:
                                 need(conj([method_configured(cfg_terms, name), ok_recv, notcallapply]), 'uninstrumented:method:%s' % where, p['span'], 'configured method call at %s is not wrapped by its hook' % where)
             if k == 'Unary':
@@ -1189,9 +1221,26 @@ def check_C04(in_view, out_view, er, erased, cfg_terms):
                 walk(p['tag'], c, 'TaggedTpl.tag')
                 walk(p['tpl'], dict(c, excluded='tagged-template'), 'TaggedTpl.tpl')
                 return
-            if k == 'OptChain':
-                walk(p, dict(c, excluded='optional-chain'), 'OptChain')
-                return
+            if k == 'OptChain' and c['in_block'] and not c.get('excluded'):
+                # `recv?.m(..)` / `a?.b.m(..)`: a non-optional call link whose callee is a member link with a configured
+                # method name (the optional invocation `recv.m?.()` is a documented exclusion)
+                base = p['base']
+                if not is_lazy(base) and base.get('_v') == 'Call':
+                    oc = base['_0']
+                    cal = oc['callee']
+                    if not is_lazy(cal) and kind(cal) == 'OptChain' and not is_lazy(payload(cal)['base']) and payload(cal)['base'].get('_v') == 'Member':
+                        prop = payload(cal)['base']['_0']['prop']
+                        if not is_lazy(prop) and prop.get('_v') == 'Ident':
+                            name = prop['_0']['sym']
+                            tags = [hook_tag(er, h) for h in er.hooks]
+                            has = z_or([leaf_eq(t, name) for t in tags if t is not None])
+                            nonopt = neg(p['optional']) if not isinstance(p['optional'], bool) else (not p['optional'])
+                            role = 'uninstrumented:optional-chain-method:%s' % where
+                            if role not in seen:
+                                cnd = conj([method_configured(cfg_terms, name), nonopt, neg(has)])
+                                if cnd is not False:
+                                    seen.add(role)
+                                    out.append(Violation('C04', role, cnd, 'configured method call in an optional chain at %s has no hook' % where))
         for fk, x in v.items():
             if fk == '_0':
                 walk(x, c, where)
@@ -1585,7 +1634,7 @@ def check_C09_spans(in_view, out_view, er):
 
 def hook_tag(er, h):
     """the telemetry tag the property prescribes for a hook: `+`, `+=`, `Tpl`, or the method's *source* name"""
-    if h.get('tag'):
+    if h.get('tag') is not None:
         return h['tag']
     R = h['R']
     k = kind(R)
